@@ -19,6 +19,11 @@ class Runaway(BaseException):
     watchdog.  Never raised on a correct implementation: generated histories terminate (dry-run `population`)."""
 
 
+class PreRaise(Exception):
+    """raised by the harness's callback wrapper BEFORE it does anything (op ('raise', n): the n-th callback called within
+    one evolve_until) - Lean `loopX`, `raise_eq_fuel_out`"""
+
+
 class FuelGuard(Exception):
     """raised by the harness's own callback wrapper after N executions within one evolve_until: the stand-in for the
     model's fuel (the real loop of a zero-delay self-re-inserting callback would spin forever)"""
@@ -201,15 +206,18 @@ def gen_interrupt(rng, big):
         style, base = gen_history_any(rng, big)
         if style in ('plain', 'ties', 'coalesce', 'reinserting', 'mixed', 'pastadds', 'negkids', 'clockrel'):
             break
+    # 'guard': the callback raises after its work;  'raise': before doing anything (not with clock-relative children: the
+    # model's `kidsExcept` path works on entry-only callbacks)
+    kind = 'raise' if not clock_relative(base) and rng.random() < 0.5 else 'guard'
     ops = []
     for op in base:
         if op[0] != 'evolve':
             ops.append(op)
             continue
         for _ in range(1 + 2 * int(rng.random() < 0.33)):
-            ops.append(('guard', int(rng.integers(1, 12))))
+            ops.append((kind, int(rng.integers(1, 12 if kind == 'guard' else 5))))
             ops.append(op)
-        ops.append(('guard', 0))
+        ops.append((kind, 0))
         ops.append(op)
     return ops
 
@@ -391,6 +399,7 @@ def run_real(ops):
     npoison = [0]
     guard = [0]        # > 0: the guard-th callback executed within one evolve_until raises FuelGuard after its work
     nexec = [0]
+    pre = [0]          # > 0: the pre-th callback called within one evolve_until raises PreRaise before doing anything
     wf = [True]        # every child delay so far is >= 0 (Lean: WF kids)
 
     def snap():
@@ -432,6 +441,9 @@ def run_real(ops):
 
         def cb():
             record(('F', t, ctr, cid, fl(s.t)))
+            if pre[0] and nexec[0] + 1 >= pre[0]:
+                nexec[0] += 1
+                raise PreRaise()
             for d, child, kind in kids.get(cid, []):
                 if kind == 'clock':
                     tc = fl(s.t) + d                # the docstring idiom: self.t + period
@@ -466,6 +478,8 @@ def run_real(ops):
             mode.add(op[1])
         elif op[0] == 'guard':
             guard[0] = int(op[1])
+        elif op[0] == 'raise':
+            pre[0] = int(op[1])
         elif op[0] == 'add':
             if float(op[1]) < hz:
                 adds_after_horizon = False
@@ -497,6 +511,8 @@ def run_real(ops):
                 status = 'index'
             except FuelGuard:
                 status = 'fuel'
+            except PreRaise:
+                status = 'raised'
             except Runaway as e:
                 status, why = 'runaway', str(e)
             except Exception as e:  # noqa
@@ -515,7 +531,7 @@ def run_real(ops):
                         'events': list(s.events), 'queue': queue, 'scheduled': list(scheduled), 'n_sched0': n_sched0,
                         'hz': hz, 'adds_after_horizon': adds_after_horizon, 'alias': alias,
                         'adds_from_clock': adds_from_clock, 'wf': wf[0], 'guard': guard[0], 'why': why,
-                        'q0': q0, 'progress': progress(kids),
+                        'q0': q0, 'progress': progress(kids), 'pre': pre[0],
                         'nrec': nrec[0]})
             alias = []
             if status == 'runaway':
@@ -528,7 +544,7 @@ def run_real(ops):
         obs[-1]['final_flags'] = (adds_after_horizon, adds_from_clock)
         # the same target once more must be accepted (it is not backwards): a zero-length evolution
         last = obs[-1]
-        if last['status'] == 'ok' and not guard[0]:
+        if last['status'] == 'ok' and not guard[0] and not pre[0]:
             try:
                 n0 = len(s.events)
                 s.evolve_until(last['T'])
@@ -559,6 +575,8 @@ def real_hist_line(obs, ops):
             fuel = int(op[1]) or FUEL
         elif op[0] == 'evolve':
             fuels.add(fuel)
+    if any(o['status'] == 'raised' for o in obs):
+        fuels.add(-1)       # the model ran that call on the fuel of raise_eq_fuel_out
     # `replay`: the model re-ran the whole history through runOps with one entry-only callback table and one fuel and
     # got the same Hist (not attempted when the guard, i.e. the fuel, changed within the history)
     # the hypotheses of history_inv / history_exactly_once as the harness classified the real history (these flags gate
@@ -626,7 +644,7 @@ def progress_fuels(ops, obs):
     nothing queued before the clock when the call starts): N = |queue| * geom(B, ceil((T - t) / delta)) + 1.
     None when the history does not qualify."""
     import math
-    if any(op[0] == 'guard' for op in ops) or not obs or len(obs) != sum(1 for op in ops if op[0] == 'evolve'):
+    if any(op[0] in ('guard', 'raise') for op in ops) or not obs or len(obs) != sum(1 for op in ops if op[0] == 'evolve'):
         return None
     out = []
     for o in obs:
@@ -640,7 +658,7 @@ def progress_fuels(ops, obs):
     return out
 
 
-def model_lines(ops, fuels=None):
+def model_lines(ops, fuels=None, obs=None):
     """The history as the CALLER's program (Lean: `ROp`, Model/SchedulerRef.lean): a time handed over as a caller-owned
     array is a reference to a cell (`cell k x` = the caller writes x into its array k; `addref` / `evolveref` hand the
     cell over), and the in-place change the caller makes right after the call (`poison` in run_real: += 0.5, += 1024.5,
@@ -670,13 +688,21 @@ def model_lines(ops, fuels=None):
             lines.append('C20 add %s %d' % (rat(op[1]), op[2]) if cell is None else 'C20 addref %d %d' % (cell, op[2]))
         elif op[0] == 'mode':
             continue            # callbacks passing the clock object back: times are values
+        elif op[0] == 'raise':
+            pass                # which callback raised is read off the real run (`evolvex`)
         elif op[0] == 'guard':
             fuel = int(op[1]) or FUEL   # the N-th callback raises  <->  the model runs on fuel N (0: no guard)
         else:
             idx.append(len(lines))
             if fuels:
                 fuel = fuels.pop(0)
-            lines.append('C20 evolve %s %d new' % (rat(op[1]), fuel) if cell is None else 'C20 evolveref %d %d new' % (cell, fuel))
+            o = obs[len(idx) - 1] if obs is not None and len(idx) - 1 < len(obs) else None
+            if o is not None and o['status'] == 'raised':
+                # the callback that raised at once: the last one called (Lean: loopX with raises = (ctr == c))
+                c = [e for e in o['events'] if e[0] == 'F'][-1][2]
+                lines.append('C20 evolvex %s %d %d new' % (rat(op[1]), fuel, c))
+            else:
+                lines.append('C20 evolve %s %d new' % (rat(op[1]), fuel) if cell is None else 'C20 evolveref %d %d new' % (cell, fuel))
         if cell is not None:
             v = float(op[1])
             v = v + 0.5 if npoison % 3 == 0 else v + 1024.5 if npoison % 3 == 1 else -3.5
@@ -719,7 +745,7 @@ def oracle(obs):
             bad.append(('forwards-refused', 'evolve_until(%r) with the clock at %r (not ahead of the target) was refused as backwards'
                         % (T, o['t0'])))
             continue
-        if o['status'] == 'fuel' and o.get('guard'):
+        if (o['status'] == 'fuel' and o.get('guard')) or (o['status'] == 'raised' and o.get('pre')):
             # the harness's guard interrupted the evolution: what holds whatever the status (conservation_perm,
             # fired_nodup, fired_lt_horizon, trace_consistent)
             if len(set(fired_keys)) != len(fired_keys):
@@ -731,8 +757,9 @@ def oracle(obs):
             if set(fired_keys) & set(o['queue']):
                 bad.append(('raised-callback-requeued', 'a callback that was executed (the last one raised) is still queued: %r'
                             % (sorted(set(fired_keys) & set(o['queue']))[:3],)))
-            if len(fires) != o['guard']:
-                bad.append(('guard', 'the guard tripped after %d callbacks, not %d' % (len(fires), o['guard'])))
+            want = o['guard'] if o['status'] == 'fuel' else o['pre']
+            if len(fires) != want:
+                bad.append(('guard', 'the guard tripped after %d callbacks, not %d' % (len(fires), want)))
             continue
         if o['status'] == 'runaway':
             # the recorder's hard guard aborted the call: termination (Lean: evolve_total_of_progress - the generated
@@ -748,9 +775,9 @@ def oracle(obs):
             key = 'raises-%s%s' % (o['status'], '-empty-queue' if not pending else '')
             bad.append((key, 'evolve_until(%r) raised %s (queue %s)' % (T, o['status'], 'empty' if not pending else 'non-empty')))
             continue
-        if o.get('guard') and len(fires) >= o['guard']:
+        if (o.get('guard') and len(fires) >= o['guard']) or (o.get('pre') and len(fires) >= o['pre']):
             bad.append(('callback-exception-swallowed', 'the %d-th callback of evolve_until(%r) raised, but the call returned normally '
-                        'after %d callbacks' % (o['guard'], T, len(fires))))
+                        'after %d callbacks' % (o.get('guard') or o.get('pre'), T, len(fires))))
         # termination with the explicit bound (Lean: evolve_total_of_progress): children at least delta after their
         # parent, at most B of them, nothing queued before the clock -> at most |queue| * (1 + B + .. + B^(n-1)) callbacks,
         # n = ceil((T - t0) / delta)
@@ -864,6 +891,10 @@ DIRECTED = [
     ('diverge', [('guard', 7), ('kids', 0, [(0.0, 0)]), ('add', 1.0, 0), ('evolve', 2.0), ('evolve', 2.0)]),
     ('diverge', [('guard', 1), ('add', 0.5, 0), ('add', 0.75, 1), ('evolve', 1.0), ('guard', 2), ('evolve', 1.0), ('evolve', 2.0)]),
     ('diverge', [('guard', 5), ('kids', 0, [(0.0, 1)]), ('kids', 1, [(-0.25, 0)]), ('add', 1.0, 0), ('evolve', 2.0), ('guard', 3), ('evolve', 3.0)]),
+    # a callback that raises at once (Lean loopX / raise_eq_fuel_out): entry lost, clock at its stop, resume completes
+    ('interrupt', [('raise', 1), ('add', 1.0, 0), ('add', 2.0, 1), ('evolve', 3.0), ('raise', 0), ('evolve', 3.0)]),
+    ('interrupt', [('kids', 0, [(0.25, 0), (0.0, 1)]), ('raise', 3), ('add', 0.5, 0), ('add', 0.5 + 2 * TINY, 2), ('evolve', 2.0), ('evolve', 2.0),
+                   ('raise', 0), ('evolve', 2.0)]),
     # Lean final_clock_below_target_possible: the clock ends strictly below the target
     ('below-target', [('evolve', 2 * TINY), ('evolve', 3 * TINY), ('evolve', 5 * TINY)]),
     # the threshold itself: a stretch of exactly the double 1e-6 is not integrated, one ulp more is
@@ -965,7 +996,7 @@ def run(ctx):
         if clock_relative(ops):
             ctx.count('histories_with_clock_relative_children')
             ctx.count('clock_relative_wf:%s' % (obs[-1]['wf'] if obs else True))
-        lines, idx = model_lines(ops)
+        lines, idx = model_lines(ops, obs=obs)
         base = len(all_lines)
         all_lines += lines
         index.append([base + i for i in idx] + [base + len(lines) - 1])
@@ -1010,13 +1041,15 @@ def run(ctx):
                 raise MachineryError('model ran out of fuel on %r' % (ops,))
             if o['status'] == 'fuel':
                 ctx.count('evolves_interrupted_by_guard')
+            if o['status'] == 'raised':
+                ctx.count('evolves_interrupted_by_a_callback_raising_at_once')
             if real_line(o) != out[i]:
                 ctx.disagree('C20 evolve', {'ops': ops, 'T': o['T'], 'impl': real_line(o), 'model': out[i]},
                              key=('raises-index-empty-queue' if o['status'] == 'index' else None))
                 agree = False
                 break
         # whole-history summary: time evolved to, clock, #created, #executed, #pending, global order
-        if agree and obs and all(o['status'] in ('ok', 'value', 'fuel') for o in obs):
+        if agree and obs and all(o['status'] in ('ok', 'value', 'fuel', 'raised') for o in obs):
             ctx.traces_validated += 1
             ctx.count('history_summaries_compared')
             for flag in ('adds_after_horizon', 'adds_from_clock', 'wf'):
